@@ -14,6 +14,7 @@ pub mod c13;
 pub mod c14;
 pub mod c15;
 pub mod c16;
+pub mod c17;
 pub mod c19;
 
 use crate::report::{PropSpec, Report, RunCfg};
@@ -36,6 +37,7 @@ pub fn lookup(id: &str) -> Option<(&'static PropSpec, fn(&RunCfg) -> Report)> {
         "C14" => (&c14::SPEC, c14::run as fn(&RunCfg) -> Report),
         "C15" => (&c15::SPEC, c15::run as fn(&RunCfg) -> Report),
         "C16" => (&c16::SPEC, c16::run as fn(&RunCfg) -> Report),
+        "C17" => (&c17::SPEC, c17::run as fn(&RunCfg) -> Report),
         "C19" => (&c19::SPEC, c19::run as fn(&RunCfg) -> Report),
         _ => return None,
     })
